@@ -4,5 +4,5 @@ P('C17', shards=16,
   text='Every generated (base, url path) pair is resolved by the real ResolveUrlPath and judged by an independent lexical '
        'containment oracle and the join identity; all url paths of length <= 8 over {/ . a \\} x 14 bases are enumerated completely, '
        'millions of random hostile paths and bases are sampled, and a native fuzz campaign searches for more. A race pass runs concurrent callers. Exploration, not proof.',
-  note='URL paths shaped like scheme://host/... are among the dot-segment-free paths. Climbing prefixes followed by long ordinary remainders (30..4097 bytes, around every power of two) and long base segments. A quarter of the cases change or unset HOME, PWD, SHELL or TMPDIR first. Bases include names a shell would expand (~, ~/public, $HOME/pub). Bases and names that really exist on disk, with symlinks out of and into the base, are among the inputs (the function is lexical). URL paths contain every byte value including NUL. Trusts the harness oracle (lexical resolver of ~20 lines) and POSIX path semantics; symlink resolution is outside the statement.',
+  note='A result is kept across one to four later calls and compared with a copy made at the time. URL paths shaped like scheme://host/... are among the dot-segment-free paths. Climbing prefixes followed by long ordinary remainders (30..4097 bytes, around every power of two) and long base segments. A quarter of the cases change or unset HOME, PWD, SHELL or TMPDIR first. Bases include names a shell would expand (~, ~/public, $HOME/pub). Bases and names that really exist on disk, with symlinks out of and into the base, are among the inputs (the function is lexical). URL paths contain every byte value including NUL. Trusts the harness oracle (lexical resolver of ~20 lines) and POSIX path semantics; symlink resolution is outside the statement.',
   design='3/C17')
